@@ -29,7 +29,7 @@ func (g *zz31RecGetter) Get(ctx context.Context, c cid.Cid) (format.Node, error)
 }
 
 // zz31RealFile is the native twin of the model file (never run under the engine): a real UnixFS file of L
-// bytes in 64-byte raw leaves under a balanced dag-pb tree with fan-out 4, a real link system with the
+// bytes in 64-byte dag-pb leaves under a balanced dag-pb tree with fan-out 4, a real link system with the
 // go-unixfsnode reifier and a recording block getter. covered = every leaf that overlaps [cs, ce] was loaded.
 func zz31RealFile(L int64, params CarParams, cs, ce int64, nonEmpty bool) (error, bool) {
 	ctx := context.Background()
